@@ -252,6 +252,84 @@ def check_types(run, filesets, info, tag):
     return compared, bad
 
 
+def check_exprkind(run, filesets, info, tag):
+    """xform_resolve_late_bound_expr_kind against Model/ExprKind.v: the harness applies the two earlier transformations, emits
+    the events the resolver meets (units with the kinds of their variables, assignments with their targets, one tag per
+    expression node), applies the transformation and emits the events of its result.  The model gets the events before and
+    must resolve every late-bound element to what stands at the same place afterwards -- or fail when the transformation
+    fails; everything else must be unchanged."""
+    if not filesets or not info.get("extract_ok"):
+        return 0, 0
+    cases = [{"id": i, "op": "exprkind", "files": [[n, hexs(t)] for n, t in fs]} for i, fs in enumerate(filesets)]
+    res = vlib.run_impl(cases, run.workdir, per_case_timeout=30)
+    lines = []
+    for i, r in enumerate(res):
+        if "panic" in r or "abort" in r:
+            text = "\n".join(t for _, t in filesets[i])
+            run.violation("impl-violates-property", "the expression resolver crashed (%s): %s" % (
+                str(r.get("panic") or r.get("abort"))[:160], text[:200].replace("\n", " ")), {"input": {"text": text, "files": [[n, t] for n, t in filesets[i]]}})
+            continue
+        if "before" not in r or r.get("parse_errs"):
+            continue
+        lines.append(("exprkind", i, [e for e in r["before"] if e.split(",")[0] in ("EN", "EX", "AS", "AE", "LB")]))
+    model = vlib.run_model(lines, run.workdir)
+    compared = bad = 0
+    for op, i, evs in lines:
+        m = model.get(str(i))
+        r = res[i]
+        text = "\n".join(t for _, t in filesets[i])
+        rep = {"input": {"text": text, "files": [[n, t] for n, t in filesets[i]]}, "events": r["before"][:200]}
+        if not m or m[0] not in ("ok", "error"):
+            bad += 1
+            run.violation("correspondence", "the expression-resolver model gave no answer (%r) for: %s" % (m, text[:160].replace("\n", " ")), rep, no_input=True)
+            continue
+        compared += 1
+        run.cov["traces_validated_against_impl"] += 1
+        run.count(("exprfacts", tuple(filesets[i])), True, "expr-facts:" + tag)
+        nlate = sum(1 for e in r["before"] if e.startswith("LB,"))
+        if "after" not in r:
+            codes = sorted(set(d["code"] for d in r.get("diags", [])))
+            if m[0] == "error" and codes == ["P9999"]:
+                run.count(("exprfacts-err", tuple(filesets[i])), False, "expr-model:not-implemented")
+                continue
+            bad += 1
+            run.cov["disagreements_checked"] += 1
+            run.violation("correspondence", "the expression resolver fails with %r, the model %s: %s" % (
+                codes, "fails too" if m[0] == "error" else "resolves all %d names" % nlate, text[:200].replace("\n", " ")), rep, no_input=True)
+            continue
+        if m[0] == "error":
+            bad += 1
+            run.cov["disagreements_checked"] += 1
+            run.violation("correspondence", "the expression resolver resolves every name, the model fails (a target kind it does not resolve): %s" % (
+                text[:200].replace("\n", " ")), rep, no_input=True)
+            continue
+        want = m[1].split() if len(m) > 1 and m[1] else []
+        b, a = r["before"], r["after"]
+        k = 0
+        diff = None
+        if len(a) != len(b):
+            diff = "the result has %d events, the source %d" % (len(a), len(b))
+        else:
+            for j, (x, y) in enumerate(zip(b, a)):
+                if x.startswith("LB,"):
+                    nm = x.split(",")[1]
+                    w = want[k] if k < len(want) else "?"
+                    k += 1
+                    exp = ("VN," if w.startswith("V:") else "EV,") + nm
+                    wn = "".join("%02x" % int(c, 16) for c in w[2:].split(".") if c)
+                    if y != exp or wn != nm:
+                        diff = "late-bound element %d (%s) became %r, the model says %r" % (k, bytes.fromhex(nm).decode("utf-8", "replace"), y, w)
+                        break
+                elif x != y:
+                    diff = "event %d changed from %r to %r" % (j, x, y)
+                    break
+        if diff:
+            bad += 1
+            run.cov["disagreements_checked"] += 1
+            run.violation("correspondence", "the expression resolver and its model differ: %s: %s" % (diff, text[:200].replace("\n", " ")), rep, no_input=True)
+    return compared, bad
+
+
 TYPE_POOL = ["Ta", "Tb", "Tc", "Td", "Te"]
 
 
